@@ -2,6 +2,7 @@ package main
 
 import (
 	"fmt"
+	"golang.org/x/tools/go/packages"
 	"go/constant"
 	"go/token"
 	"math"
@@ -73,6 +74,9 @@ func (e *Eng) findLoops() error {
 			for _, in := range b.Instrs {
 				if _, ok := in.(*ssa.DebugRef); ok {
 					continue
+				}
+				if _, ok := in.(*ssa.Phi); ok {
+					continue // a phi carries the position of the variable's declaration, not of the loop
 				}
 				if p := in.Pos(); p.IsValid() && p < li.minPos {
 					li.minPos = p
@@ -614,7 +618,7 @@ func (e *Eng) loopHead(fr *Frame, li *loopInfo, st *State, loopMods map[int]map[
 	mods := loopMods[h.Index]
 	rowRefine, fieldRefine := e.loopWriteTargets(fr, li)
 	for _, n := range e.sortedHeapNames() {
-		if strings.HasPrefix(n, "G|holds_") {
+		if strings.HasPrefix(n, "G|holds_") || e.w.stableGlobal(n) {
 			continue
 		}
 		if mods == nil || mods[n] {
@@ -771,12 +775,12 @@ func (e *Eng) backEdge(fr *Frame, li *loopInfo, predIdx int, cond T, st *State, 
 func (e *Eng) evalLoopClause(fr *Frame, li *loopInfo, c *Clause, bind map[*ssa.Phi]Val, st *State) T {
 	vars := map[string]Val{}
 	for _, vd := range li.spec.Vars {
-		vars[vd.Name] = e.loopVar(fr, li, vd.Name, bind)
+		vars[vd.Name] = e.loopVar(fr, li, vd.Name, bind, st)
 	}
 	return e.evalClause(c, st, e.entry, nil, vars)
 }
 
-func (e *Eng) loopVar(fr *Frame, li *loopInfo, name string, bind map[*ssa.Phi]Val) Val {
+func (e *Eng) loopVar(fr *Frame, li *loopInfo, name string, bind map[*ssa.Phi]Val, st *State) Val {
 	if name == "iter" && li.rangeIdx != nil {
 		return app("bvadd", bind[li.rangeIdx].(T), i64(1))
 	}
@@ -788,6 +792,9 @@ func (e *Eng) loopVar(fr *Frame, li *loopInfo, name string, bind map[*ssa.Phi]Va
 			return bind[phi]
 		}
 	}
+	if v, ok := e.cellVar(fr, st, name); ok {
+		return v
+	}
 	// not loop-carried: find a DebugRef for a variable of that name whose value dominates the header
 	var best ssa.Value
 	var bestBlock *ssa.BasicBlock
@@ -797,13 +804,20 @@ func (e *Eng) loopVar(fr *Frame, li *loopInfo, name string, bind map[*ssa.Phi]Va
 		}
 		for _, in := range b.Instrs {
 			dr, ok := in.(*ssa.DebugRef)
-			if !ok || dr.IsAddr {
+			if !ok {
 				continue
 			}
 			if dr.Object() == nil || dr.Object().Name() != name {
 				continue
 			}
 			if _, isVar := dr.Object().(*types.Var); !isVar {
+				continue
+			}
+			if dr.IsAddr {
+				// address-taken variable (captured by a closure): read its current value from memory
+				if p, ok := fr.vals[dr.X].(*PtrV); ok {
+					return e.loadPtr(fr, st, p, p.Elem)
+				}
 				continue
 			}
 			if bestBlock == nil || bestBlock.Dominates(b) {
@@ -1051,21 +1065,66 @@ func (e *Eng) pkgInvs() (*ContractFile, string) {
 	return e.w.FileOfPkg[p], p
 }
 
-// assumePkgInvs: package invariants hold at the entry of every function except the initialiser.
+// assumePkgInvs: the package invariants of every /repo package hold at the entry of every function
+// except a package initialiser, which may only assume those of the packages it imports (initialised before it).
 func (e *Eng) assumePkgInvs(st *State) {
-	cf, path := e.pkgInvs()
-	if cf == nil || e.isPkgInit() || isSpecGenFn(e.w, e.fn) {
+	_, own := e.pkgInvs()
+	if isSpecGenFn(e.w, e.fn) {
 		return
 	}
-	for _, c := range cf.PkgInvs {
-		fn := e.w.specFn(path + "::" + c.SpecFn)
-		if fn == nil {
+	var paths []string
+	for p := range e.w.FileOfPkg {
+		paths = append(paths, p)
+	}
+	sort.Strings(paths)
+	for _, path := range paths {
+		cf := e.w.FileOfPkg[path]
+		if len(cf.PkgInvs) == 0 {
 			continue
 		}
-		v, _, _ := e.evalPure(fn, nil, nil, nil, nil, st, st, 0)
-		e.assume(st, v.(T))
-		e.note("package invariant (proved for init, globals never written elsewhere): " + c.Expr)
+		if e.isPkgInit() {
+			if path == own || !e.imports(own, path) {
+				continue
+			}
+		}
+		for _, c := range cf.PkgInvs {
+			fn := e.w.specFn(path + "::" + c.SpecFn)
+			if fn == nil {
+				continue
+			}
+			v, _, _ := e.evalPure(fn, nil, nil, nil, nil, st, st, 0)
+			e.assume(st, v.(T))
+			e.note("package invariant (proved for the package initialiser; the variables are never written elsewhere): " + c.Expr)
+		}
 	}
+}
+
+// imports reports whether package a (transitively) imports package b.
+func (e *Eng) imports(a, b string) bool {
+	var pa *packages.Package
+	for _, p := range e.w.Pkgs {
+		if p.PkgPath == a {
+			pa = p
+		}
+	}
+	if pa == nil {
+		return false
+	}
+	seen := map[string]bool{}
+	var walk func(p *packages.Package) bool
+	walk = func(p *packages.Package) bool {
+		if seen[p.PkgPath] {
+			return false
+		}
+		seen[p.PkgPath] = true
+		for path, ip := range p.Imports {
+			if path == b || walk(ip) {
+				return true
+			}
+		}
+		return false
+	}
+	return walk(pa)
 }
 
 // pkgInvObligations: init establishes the invariants, and no other function of the package stores
@@ -1109,7 +1168,13 @@ func (e *Eng) pkgInvObligations(st *State) {
 		}
 		scan(fn, 0)
 		written := ""
-		for _, m := range e.fn.Pkg.Members {
+		var members []ssa.Member
+		for _, sp := range e.w.SsaPkgs {
+			for _, m := range sp.Members {
+				members = append(members, m)
+			}
+		}
+		for _, m := range members {
 			check := func(f *ssa.Function) {}
 			var walk func(f *ssa.Function)
 			walk = func(f *ssa.Function) {
@@ -1121,6 +1186,14 @@ func (e *Eng) pkgInvObligations(st *State) {
 						if s, ok := in.(*ssa.Store); ok {
 							if g, ok := s.Addr.(*ssa.Global); ok && globals[g] {
 								written = g.Name() + " in " + f.Name()
+							}
+						}
+						// element-level stability for slice-typed variables: the loaded slice may only be read
+						if u, ok := in.(*ssa.UnOp); ok {
+							if g, ok := u.X.(*ssa.Global); ok && globals[g] {
+								if _, isSlice := under(u.Type()).(*types.Slice); isSlice && !readOnlyUses(u) {
+									written = "elements of " + g.Name() + " may be written in " + f.Name()
+								}
 							}
 						}
 						// address of the global escapes (other than to a load)
@@ -1148,7 +1221,7 @@ func (e *Eng) pkgInvObligations(st *State) {
 				for _, t := range []types.Type{x.Type(), types.NewPointer(x.Type())} {
 					ms := e.w.Prog.MethodSets.MethodSet(t)
 					for i := 0; i < ms.Len(); i++ {
-						if f := e.w.Prog.MethodValue(ms.At(i)); f != nil && f.Pkg == e.fn.Pkg {
+						if f := e.w.Prog.MethodValue(ms.At(i)); f != nil && f.Pkg != nil && e.w.SsaPkgs[f.Pkg.Pkg.Path()] != nil {
 							walk(f)
 						}
 					}
@@ -1161,4 +1234,51 @@ func (e *Eng) pkgInvObligations(st *State) {
 		}
 		e.oblige(st, "pkginv.stable", c.Label, propsOf(c, e), goal, nil, "no function other than init writes the package variables of: "+c.Expr+" "+written)
 	}
+}
+
+
+// readOnlyUses: the slice value v is only ranged over, indexed for loading, measured or compared.
+func readOnlyUses(v ssa.Value) bool {
+	refs := v.Referrers()
+	if refs == nil {
+		return true
+	}
+	for _, r := range *refs {
+		switch x := r.(type) {
+		case *ssa.DebugRef, *ssa.Range, *ssa.BinOp, *ssa.Index, *ssa.Lookup:
+		case *ssa.IndexAddr:
+			if rr := x.Referrers(); rr != nil {
+				for _, r2 := range *rr {
+					switch y := r2.(type) {
+					case *ssa.UnOp, *ssa.DebugRef:
+					case *ssa.FieldAddr:
+						// &s[i].f : allow loads only
+						if r3 := y.Referrers(); r3 != nil {
+							for _, z := range *r3 {
+								if _, ok := z.(*ssa.UnOp); !ok {
+									if _, ok := z.(*ssa.DebugRef); !ok {
+										return false
+									}
+								}
+							}
+						}
+					default:
+						return false
+					}
+				}
+			}
+		case *ssa.Call:
+			if b, ok := x.Call.Value.(*ssa.Builtin); ok && (b.Name() == "len" || b.Name() == "cap") {
+				continue
+			}
+			return false
+		case *ssa.Phi:
+			if !readOnlyUses(x) {
+				return false
+			}
+		default:
+			return false
+		}
+	}
+	return true
 }
